@@ -38,6 +38,7 @@ def main(argv):
     if tier not in ('quick', 'thorough'):
         tier = 'quick'
     env.boot()
+    core.CURRENT_PROP = prop
     mod = importlib.import_module(f'vq.props.{prop.lower()}')
     if replay is not None:
         with open(replay) as f:
@@ -53,7 +54,17 @@ def main(argv):
         print(f"replay: property {prop} holds on this case")
         return 0
     t0 = time.time()
-    st, meta = mod.run(tier, seed)
+    try:
+        st, meta = mod.run(tier, seed)
+    except Exception as exc:
+        st = core.abort_violation(exc, 'run')
+        if st is None:
+            raise
+        meta = dict(rule='aborted before the exploration completed',
+                    level_text='aborted', exhaustive=False)
+        st.caps.append('aborted')
+        st.state(('aborted',))
+        st.transitions = st.evaluations = 1
     return core.finish(prop, tier, seed, st, t0, **meta)
 
 
